@@ -406,3 +406,9 @@ Print Assumptions C06_source_eqpt_check.
 Theorem C06_source_merge_policy : forall el eq, g_merge_policy el eq = merge_policy el eq.
 Proof. exact Proofs.RoadmGen.gen_merge_policy. Qed.
 Print Assumptions C06_source_merge_policy.
+
+(* propagate_and_optimize_mode: a mode is only evaluated on the propagation made with its own baud rate and offset *)
+Theorem C06_source_mode_explored : forall mb mo msp br off sp,
+  g_mode_explored mb mo msp br off sp = true -> mb == br /\ mo == off.
+Proof. exact Proofs.RoadmGen.gen_mode_explored. Qed.
+Print Assumptions C06_source_mode_explored.
